@@ -177,7 +177,7 @@ def parts(tier):
         if tier == 'quick':
             out += [{'async': a, 'n': 1, 'first': f} for f in range(NOPS)]
         else:
-            out += [{'async': a, 'n': 2, 'first': f, 'wide': True} for f in range(NOPS)]
+            out += [{'async': a, 'n': 2, 'first': f} for f in range(NOPS)]
     return out
 
 
@@ -194,7 +194,7 @@ META = dict(
     bounds={'quick': '3 clients x 3 rooms (string, integer, session-id-named) on / (+ client 1 on /a): 2^7 pre-states (incl. client 0 having left its personal room) x '
                      '2 x %d operations (enter, leave, close incl. unknown room, disconnect by 3 causes, emit with 7 '
                      'targets x 3 skip_sid forms, operations on an unknown namespace and on /a) x 8 probe emits' % NOPS,
-            'thorough': '2^10 pre-states, two consecutive operations'},
+            'thorough': 'the same pre-states, two consecutive operations'},
     outside=['empty-list and falsy targets (broadcast by definition)', 'tuple room names', 'more than 3 clients / 3 rooms',
              'pub/sub managers (C07)'],
     stubs=['engine.io server -> FakeEio/FakeAEio (per-transport outboxes)', 'JSON text -> TokJson',
